@@ -192,13 +192,17 @@ def no_process_survives_an_abort(chk):
     "ignore", which the task forked in the deferred window inherited.)"""
     driver = ("import os, signal, subprocess, sys\n"
               "nth, sig = int(sys.argv[1]), int(sys.argv[2])\n"
+              "here = os.path.dirname(os.path.abspath(__file__))\n"
               "real = subprocess.Popen\n"
               "count = [0]\n"
               "class P(real):\n"
               "    def __init__(self, *a, **k):\n"
-              "        if k.get('shell'):\n"
+              "        cmd = a[0] if a else k.get('args')\n"
+              "        first = cmd if isinstance(cmd, str) else (cmd[0] if cmd else '')\n"
+              "        if os.path.basename(str(first).split()[0] if str(first).split() else '') != 'git':     # every spawn but the git probes is a task\n"
               "            count[0] += 1\n"
               "            if count[0] == nth:\n"
+              "                open(os.path.join(here, 'fired'), 'w').close()\n"
               "                os.kill(os.getpid(), sig)\n"
               "        super().__init__(*a, **k)\n"
               "subprocess.Popen = P\n"
@@ -253,6 +257,25 @@ def no_process_survives_an_abort(chk):
             time.sleep(0.2)
             p.send_signal(sig)
         late = b""
+        fired = os.path.join(os.path.dirname(root), "fired")
+        if nth is not None:
+            # the hook must fire (the N-th task spawn seen by the wrapper); if it never does the rewritten code spawns differently: a broken
+            # tie of this scenario, not a failing input -- and nobody would ever interrupt the run
+            t0 = time.time()
+            while time.time() - t0 < 15 and not os.path.exists(fired) and p.poll() is None:
+                time.sleep(0.05)
+            if not os.path.exists(fired):
+                p.kill()
+                p.wait()
+                for v in pids().values():
+                    for f_ in (os.killpg, os.kill):
+                        try:
+                            f_(v, signal.SIGKILL)
+                        except OSError:
+                            pass
+                chk.violation("tie-broken", "no_process_survives_an_abort: the wrapper around subprocess.Popen never saw the %d. task spawn (%s); the scenario cannot deliver its signal" % (nth, kind),
+                              {"theorem_or_tie": "scenario hook: spawn counting through subprocess.Popen"}, found_input=False)
+                continue
         try:
             p.wait(timeout=30)
         except subprocess.TimeoutExpired:
